@@ -599,9 +599,25 @@ func rtUGeneric(a *aggregator, v *rtView) {
 					return false
 				}
 			}
+			// an integer that is not itself an offset (a length, an index into a literal), converted to U
+			isPlainInt := func(x ssa.Value) bool {
+				switch y := x.(type) {
+				case *ssa.Convert:
+					if _, tp := y.X.Type().(*types.TypeParam); tp {
+						return false
+					}
+					return !derivesFromOffset(y.X, map[ssa.Value]bool{})
+				case *ssa.MultiConvert:
+					if _, tp := y.X.Type().(*types.TypeParam); tp {
+						return false
+					}
+					return !derivesFromOffset(y.X, map[ssa.Value]bool{})
+				}
+				return false
+			}
 			switch bo.Op {
 			case token.ADD:
-				if isOne(bo.Y) || isOne(bo.X) || isLen(bo.Y) || isLen(bo.X) {
+				if isOne(bo.Y) || isOne(bo.X) || isLen(bo.Y) || isLen(bo.X) || isPlainInt(bo.Y) || isPlainInt(bo.X) {
 					return
 				}
 			case token.SUB:
@@ -613,7 +629,7 @@ func rtUGeneric(a *aggregator, v *rtView) {
 		})
 	}
 	a.Decide(len(badA) == 0, "R-U-arith", "runtime/arithmetic in the offset type only steps", cfg, "",
-		fmt.Sprintf("%d operation(s) with a result of type U: each is x+1, x-1 or x+U(len(…))", nA),
+		fmt.Sprintf("%d operation(s) with a result of type U: each is x+1, x-1 or x+U(n) for a length or index n that is not itself an offset", nA),
 		"a value of the offset type is computed by an operation that can wrap for small U (uint8, uint16) on inputs those types can hold: "+strings.Join(badA, "; "))
 	a.Decide(len(bad) == 0, "R-U-generic", "runtime/conversions of U-typed values", cfg, "",
 		fmt.Sprintf("%d conversion(s) from U examined: all to int/uint/64-bit types, or the listed Trim(uint32(tokenIndex)) (differs only beyond 2^32 tokens)", n),
